@@ -10,6 +10,7 @@ import (
 	"strings"
 	"testing"
 	"time"
+	"unicode/utf8"
 
 	"github.com/a-h/templ/generator"
 	"pgregory.net/rapid"
@@ -114,6 +115,8 @@ func TestPropDevMode(t *testing.T) {
 		var files []*tgen.File
 		for len(files) < perBatch {
 			f := g.Draw(t, "file")
+			// a file saved in a legacy encoding: its static text holds bytes that are not UTF-8
+			f.Latin1 = rapid.IntRange(0, 3).Draw(t, "latin1") == 0
 			src, _ := tgen.Print(f, "P")
 			if _, _, err := tc.Generate(src, "p.templ"); err != nil {
 				continue
@@ -137,6 +140,9 @@ func TestPropDevMode(t *testing.T) {
 		}
 		for i, j := range jobs {
 			recDev.Eval(1)
+			if !utf8.ValidString(srcs[j.K]) {
+				recDev.Class("static text holds bytes that are not UTF-8")
+			}
 			if needsEscaping(srcs[j.K]) {
 				recDev.NonTrivial(srcs[j.K]+fmt.Sprint(j.Args), func() any { return map[string]any{"source": clip(srcs[j.K]), "args": j.Args} })
 			}
@@ -305,6 +311,7 @@ func TestPropEdits(t *testing.T) {
 	g := tgen.GenFile(o)
 	rapid.Check(t, func(t *rapid.T) {
 		t0 := g.Draw(t, "t0")
+		t0.Latin1 = rapid.IntRange(0, 5).Draw(t, "latin1") == 0
 		if rapid.IntRange(0, 2).Draw(t, "oddAttrName") == 0 {
 			// attribute names in other letter case name the same attributes to a browser, and the
 			// generator has special paths for class, style and on*
